@@ -10,7 +10,7 @@ On break: harness `oracle` states the property on the real results (delay <= tim
 """
 import os
 
-THEOREMS = ["IstioModel.C18.RotateTheorems"]
+THEOREMS = ["IstioModel.C18.RotateTheorems", "IstioModel.C18.Invariants", "IstioModel.C18.Reach", "IstioModel.C18.Theorems"]
 
 
 def split_cases(lines):
@@ -169,21 +169,31 @@ def oracle_all(ctx, streams):
 
 def run(ctx):
     ctx.rule = ("rotate: cases = random (created, expire, ratio, jitter bound) incl. boundary lifetimes 0/1/2/3 ns .. 10 y and "
-                "2^53+1 ns, ratios/jitters from tables, random, ratio = jitter +- 1 ulp, out-of-range; 3 real calls each; "
-                "distinct = hash of the inputs; non-trivial = at least one op")
+                "2^53+1 ns, ratios/jitters from tables, random, ratio = jitter +- 1 ulp, out-of-range; 3 real calls each. "
+                "cache: cases = random scripts (1-30 ops) of GenerateSecret(default|ROOTCA) with per-call CA behaviour (TTL -1h..90d, "
+                "signer, bundle, 4 error kinds), UpdateConfigTrustBundle, rotation callbacks aimed at current/stale/used/absent entries; "
+                "ratio in quarters, jitter in {0, 0.01, 1/16}. conc: N=1..12 goroutines, 0-3 failing CA calls, slow CA. "
+                "timer: real delayed queue, 1-2 s lifetimes. distinct = hash of (ops, implementation outputs) "
+                "(rotate: inputs only); non-trivial = at least one op")
     ctx.assumptions = [
         "float64 rounding in rotateTime is not modelled; real results are accepted within tol(L) = |L|/2^50 + 2 ns of the exact interval",
-        "sync.Mutex / RWMutex give atomic critical sections; time.Now() is monotone non-decreasing",
-        "the CA client signs the CSR it is given (cert public key = CSR public key); CA behaviour is otherwise arbitrary input",
+        "sync.Mutex / RWMutex give atomic critical sections; time.Now() is monotone non-decreasing; two CA responses never carry the same CreatedTime",
+        "the CA client signs the CSR it is given (certificate public key = CSR public key); CA behaviour is otherwise arbitrary input",
+        "no file-mounted certificates (generateFileSecret answers 'not from file'), OutputKeyCertToDir unset",
+        "the scheduled delay is counted from the instant rotateTime read the clock; the delayed queue adds its own enqueue latency",
     ]
     ctx.trusted.append("security/pkg/nodeagent/cache/zz_verif_c18.go (verif-tagged accessors: rotateTime, queue injection, cache reads)")
+    ctx.trusted.append("the fake CA (real x509 signing of the real CSR), the recording delayed queue and the recording secret handler of harness/c18")
     ctx.lean_prove(THEOREMS)
     if not ctx.build_drv():
         return
     if not ctx.go_build():
         return
     rotate_stream(ctx, ctx.n(10000, 200000))
-    oracle_all(ctx, ["rotate"])
+    ctx.diff_stream("cache", ctx.n(2500, 40000), oracle=oracle)
+    ctx.diff_stream("conc", ctx.n(150, 2500), oracle=oracle)
+    ctx.diff_stream("timer", ctx.n(8, 300), oracle=oracle)
+    oracle_all(ctx, ["rotate", "cache", "conc", "timer"])
 
 
 def replay(ctx, path):
@@ -200,8 +210,19 @@ def replay(ctx, path):
     found = oracle(ctx, stream, ops, None)
     if found:
         ctx.violation(found[0], found[1], found[2], True)
-    else:
+        return
+    if stream == "rotate":
         ctx.log("replayed case passes the property oracle")
+        return
+    p = os.path.join(ctx.work, "replay.ops")
+    with open(p, "w") as f:
+        f.write("\n".join(ops) + "\n")
+    ok, impl, model, log = ctx.run_pair(stream, p, "replay")
+    m = ctx.compare(stream, p, impl, model)[2] if ok else None
+    if m is not None:
+        ctx.tie_broken("correspondence:%s" % stream, "replayed case still differs", m.to_json())
+    else:
+        ctx.log("replayed case agrees with the model and passes the property oracle")
 
 
 MANIFEST = {
